@@ -135,7 +135,8 @@ DegenMoves(q) == {R(3, 0, B, B, "c"), R(3, 0 - 4, B, B, "c"), R(0, 0, B, B, "c")
                   R(0, 0, B, B, "s"), D(3, 0, B, B, "s"), D(40, 0, B, B, "s"), R(0, 0, B, B, "e"),
                   \* a glyph without width and height, after a gap (word-space test on a zero-size glyph) and on its own
                   R(3, 0, 0, 0, "c"), R(0, 4, 0, 0, "c"), D(3, 0, 0, 0, "c")}
-ParamsDegen == {Default(FALSE), Default(TRUE), [Default(FALSE) EXCEPT !.bf = None]}
+ParamsDegenT == {Default(FALSE), Default(TRUE), [Default(FALSE) EXCEPT !.bf = None]}
+ParamsDegen == {Default(TRUE), [Default(FALSE) EXCEPT !.bf = None]}
 \* ------------------------------------------------------------------ word spaces in front of glyphs wider than tall
 \* (taller than wide in vertical lines, by transposition): gaps around BOTH word_margin * width and word_margin * height,
 \* so that "relative to the larger of width and height" is told from "relative to the height / size / width"
